@@ -1,0 +1,9 @@
+//go:build verif
+
+package yae
+
+import "github.com/goghcrow/yae/val"
+
+// RuntimeEnvHook exposes the engine's run-time function environment, which a closure returned
+// by CompileExpr has to be run under (verification harness hook).
+func (e *Expr) RuntimeEnvHook() *val.Env { return e.runtime }
